@@ -234,6 +234,47 @@ CLAIMED["C20"] = dict(
          "functions, distributed nodes vs the Lean model and vs the reflective walk over dataclass fields.",
     design_ref="§5 C20", note="Analyses modelled as folds over the completion log.")
 
+CLAIMED["C06"] = dict(
+    technique="Lean 4 theorems: multilinearity of the einsum semantics in every operand position, soundness of the modelled "
+              "distributive-law rewrite for every policy/nesting, kernel-checked truth table of the real distributability predicate "
+              "+ all-policies correspondence under the reference evaluator",
+    text="Proved (model over Rat): einsum_add/sub/smul/muls/div_scalar (any operand position, repeated and broadcast-unit axes) via "
+         "einsum_lincomb; distribute_sound: for every policy, nesting depth and opaque-operation interpretation, if the "
+         "distributability predicate only accepts linear cases then the rewritten expression denotes the same array; "
+         "not_linear_scalar_over_array (c / x is NOT linear: concrete witness). Kernel-checked each run (decide +kernel): "
+         "can_dist_is_linear over the truth table of the REAL _can_hlo_be_distributed regenerated by calling it on synthetic HLOs "
+         "(18 operators x operand kinds x shapes equal?; 77 rows) => distribute_sound_table. Tie: the table (translator) + seeded "
+         "expressions with 1..3 (nested) einsums whose operands are trees of + - * / with array/scalar operands in both positions, "
+         "powers, math functions, indexing, reshapes, transposes, broadcast-unit axes, under EVERY distribution policy (<=64 per "
+         "expression): original vs rewritten values under the reference evaluator; rewrite_einsums_with_no_broadcasts likewise "
+         "(+ no broadcasting operand may remain). Partial: floating-point reassociation outside the model (tolerance).",
+    design_ref="§5 C06", note="The raiser the rewrite consumes is C19's subject.")
+CLAIMED["C19"] = dict(
+    technique="Lean 4 theorems: soundness of a model of the raising cascade w.r.t. the index-lambda semantics + correspondence of the "
+              "model's classification with the real raiser + NumPy interpretation of every real classification",
+    text="Proved (model Pt.Raise.raise of index_lambda_to_high_level_op): raise_sound — whenever the cascade classifies an index "
+         "lambda as full / binary operation (both operand orders, array or scalar operands, broadcasting) / c99 call / zeros_like / "
+         "where / logical_not / broadcast, applying that operation (NumPy broadcasting) reproduces the index lambda's value at "
+         "every in-bounds index; raise_sound_reduce for reductions over any axis subset and all six operators; raise_rejects "
+         "(permuted/offset/constant subscripts, three-operand sums, lone casts, unknown functions, reductions with non-zero lower "
+         "bound or wrong extent are unknown). Tie: 2660 API-built index lambdas (every operator in both orders x array/scalar "
+         "operands x broadcasting shapes x dtypes, comparisons, logical, where, math functions, reductions over every axis subset, "
+         "full, broadcast_to, zeros_like, logical_not) and 19 hand-built near-misses: the real HighLevelOp is interpreted with NumPy "
+         "on the identified operands and compared with the pointwise interpreter; API forms must be recognised, everything else "
+         "unknown (never an exception); the Lean model must classify every case like the real raiser. Partial: casts are dropped "
+         "before matching (dtype effects compared numerically).",
+    design_ref="§5 C19", note="A cast (astype) is none of the high-level operations: reported as unknown.")
+CLAIMED["C12"] = dict(
+    technique="correspondence of trace_call / inline_calls with direct application under the reference evaluator and generated code; "
+              "Lean 4 substitution/inlining theorems (PtProofs/C12.lean) when present in the build",
+    text="Tie: seeded functions (bodies = op recipes over 1..4 parameters) returning array/tuple/dict; call sites positional/"
+         "keyword/mixed, repeated calls, nesting <= 3, caller placeholders named like callee parameters (in__pt_0, in_a, ...): "
+         "trace_call results have the shapes/dtypes/values of direct application; tag_all_calls_to_be_inlined + inline_calls yields "
+         "a call-free graph with identical values; generated code of graphs with calls agrees. Theorems (model of placeholder "
+         "substitution without capture and of inlining): listed in the evidence when PtProofs/C12.lean is present; until then the "
+         "evidence falls back to the generic counts.",
+    design_ref="§5 C12", note="Graphs are deduplicated first (two trace_calls of one Python function give equal but distinct definitions).")
+
 NOT_YET = "check not built yet in this revision (see DESIGN.md §10 build order); not claimed"
 
 ALL = [f"C{n:02d}" for n in range(1, 21)]
